@@ -17,6 +17,10 @@ func init() {
 		shardSize: 60,
 		gen: func(tier string, r *Rand, add func(in interface{})) {
 			shapes := allShapes()
+			// the ends of the integer ranges, in every spelling (a lookup structure indexed one past its end panics only there)
+			shapes = append(shapes, tvInt("int64", 1<<63-1), tvInt("int64", -1<<63), tvUint("uint64", 1<<64-1), tvUint("uint64", 1<<63),
+				tvStr("9223372036854775807"), tvJSON("-9223372036854775808"), tvList(tvInt("int64", 1<<63-1), tvInt("int64", 5)),
+				tvSlice("[]int64", tvInt("int64", -1<<63), tvInt("int64", 1<<63-1)), tvFloat("float64", 9.3e18), tvFloat("float64", -9.3e18), tvStr("9223372036854775808"))
 			if tier == "thorough" {
 				shapes = append(shapes, scalarZoo()...)
 			}
